@@ -4,5 +4,5 @@ Require Import ExtrOcamlBasic.
 Extraction Language OCaml.
 Extraction "model.ml" value_to_json block_start block_end go_block_lexable default_extract forward_d
   json_denote_gen json_denote json_valid_b gql_denote lit_valid_b dval_eqb value_preserved_b json_same_value_b
-  json_member has_raw_ctl no_brace_escape has_escaped_triple rescan_exact blank_only utf8_ok block_string_value
+  json_member no_brace_escape rescan_exact utf8_ok block_string_value
   go_safe_b default_denote spec_block_delimited is_dnull.
